@@ -97,9 +97,23 @@ def target_names(target):
 
 
 def kwarg(call, name):
+    """The argument of `call` for parameter `name`: the keyword, or - for a
+    call of a Table method, whose signature is known - the positional
+    argument in that parameter's position."""
     for kw in call.keywords:
         if kw.arg == name:
             return kw.value
+    if isinstance(call.func, ast.Attribute) and call.args:
+        try:
+            from .normalize import TABLE_SIGNATURES
+        except Exception:
+            return None
+        sig = TABLE_SIGNATURES.get(call.func.attr)
+        if sig and name in sig:
+            i = sig.index(name)
+            if i < len(call.args) and not any(
+                    isinstance(a, ast.Starred) for a in call.args[:i + 1]):
+                return call.args[i]
     return None
 
 
@@ -179,3 +193,15 @@ def local_assignments(func):
         elif isinstance(n, ast.NamedExpr) and isinstance(n.target, ast.Name):
             out.setdefault(n.target.id, []).append((n.value, n))
     return out
+
+
+def arg_of(call, pos, name):
+    """The argument of `call` bound to the parameter at position `pos` named
+    `name`: positional or keyword."""
+    if len(call.args) > pos and not any(
+            isinstance(a, ast.Starred) for a in call.args[:pos + 1]):
+        return call.args[pos]
+    for k in call.keywords:
+        if k.arg == name:
+            return k.value
+    return None
